@@ -123,7 +123,8 @@ void *memcpy(void *dst, const void *src, size_t n)
 	char *d = (char *) dst;
 	const char *s = (const char *) src;
 	__CPROVER_assert(n == 0 || (__CPROVER_r_ok(src, n) && __CPROVER_w_ok(dst, n)), "memcpy: source and destination ranges valid");
-	__CPROVER_assert(n == 0 || !__CPROVER_same_object(dst, src), "memcpy: ranges in different objects (no overlap)");
+	__CPROVER_assert(n == 0 || !__CPROVER_same_object(dst, src) || VG_OFF(dst) + n <= VG_OFF(src) || VG_OFF(src) + n <= VG_OFF(dst),
+	                 "memcpy: ranges do not overlap");
 	if (n == 5) {
 		d[0] = s[0]; d[1] = s[1]; d[2] = s[2]; d[3] = s[3]; d[4] = s[4];
 	} else if (n != 0) {
@@ -258,6 +259,13 @@ int strncmp(const char *a, const char *b, size_t n)
 	return 0;
 }
 
+/* ghost: set when the realloc or the stream stub reports failure (used by the bounded level-1 group) */
+int vg_io_fail;
+#ifdef VG_PLAIN_L1
+#define VG_IO_FAIL() (vg_io_fail = 1)
+#else
+#define VG_IO_FAIL() ((void) 0)
+#endif
 /* ASSUME: realloc(p, n) returns NULL and leaves the block alone, or releases p and returns a block of n
    bytes whose leading min(old size, n) bytes are those of p (ISO C).  The stub always moves the block (the
    harshest case for stale pointers) and scrambles the old one.  It carries the C13 obligation that one step grows a header block by
@@ -270,7 +278,7 @@ void *realloc(void *p, size_t n)
 	                 "realloc: argument is a header block");
 	__CPROVER_assert(n >= sizeof(LHAFileHeader) + vg_cap && n - sizeof(LHAFileHeader) - vg_cap <= VG_GROW_MAX,
 	                 "C13 realloc: a header block grows by at most LEVEL_3_MAX_HEADER_LEN per step");
-	if (nondet_bool()) return NULL;
+	if (nondet_bool()) { VG_IO_FAIL(); return NULL; }
 	__CPROVER_assume(n <= VG_BLK_SIZE);
 	q = (malloc)(VG_BLK_SIZE);
 	__CPROVER_assume(q != NULL);
@@ -304,7 +312,8 @@ int lha_input_stream_read(LHAInputStream *stream, void *buf, size_t buf_len)
 #endif
 	VG_RD80(0) VG_RD80(80) VG_RD80(160) VG_RD80(240)
 	*blk = t;
-	return nondet_bool() ? 1 : 0;
+	if (nondet_bool()) { VG_IO_FAIL(); return 0; }
+	return 1;
 }
 
 /* ASSUME: mktime returns an arbitrary time_t and may normalise the fields of *tm (ISO C); the broken-down
@@ -348,7 +357,7 @@ static void vg_havoc(void)
 	vg_wend = nondet_size_t();
 	vg_K = nondet_size_t();
 	__CPROVER_assume(vg_K < VG_PB);
-	vg_cap = nondet_size_t(); vg_R = nondet_size_t(); __CPROVER_assume(vg_R < VG_RAW_MAX); vg_blk = NULL; vg_moves = nondet_size_t(); __CPROVER_assume(vg_moves < 1000); vg_ext_total = nondet_size_t();
+	vg_cap = nondet_size_t(); vg_R = nondet_size_t(); __CPROVER_assume(vg_R < VG_RAW_MAX); vg_blk = NULL; vg_dx_ok = nondet_int(); vg_rule = nondet_int(); vg_moves = nondet_size_t(); __CPROVER_assume(vg_moves < 1000); vg_ext_total = nondet_size_t();
 	vg_sum_ptr = NULL; vg_sum_len = nondet_size_t(); vg_sum8 = nondet_uint();
 	vg_crc_buf = NULL; vg_crc_len = nondet_size_t(); vg_crc_init = nondet_ushort(); vg_crc_out = nondet_ushort(); vg_crc_calls = 0;
 	vg_mktime_calls = 0;
@@ -426,6 +435,50 @@ void h_process_level0_extended_area(void)
 }
 void h_file_header_free(void) { LHAFileHeader *h; vg_havoc(); lha_file_header_free(h); VG_CANARY("lha_file_header_free"); }
 void h_file_header_add_ref(void) { LHAFileHeader *h; vg_havoc(); lha_file_header_add_ref(h); VG_CANARY("lha_file_header_add_ref"); }
+/* Bounded, plain route: the REAL read_l1_extended_headers + read_next_ext_header + extend_raw_data on the moving
+   model block, loop unwound; compressed_length <= 8 bounds the chain to at most 2 extended headers.  Checks the
+   level-1 rules of C12/C05 against an independent walk over the raw bytes that were read. */
+void h_read_l1_plain(void)
+{
+	struct vg_blk_t *b;
+	LHAFileHeader *h; LHAInputStream *st;
+	size_t cap0, cl0, pos, total = 0, k;
+	unsigned len;
+	_Bool rulebad = 0, ended = 0, ranout = 0;
+	int r;
+	vg_havoc();
+	b = (malloc)(VG_BLK_SIZE);
+	__CPROVER_assume(b != NULL);
+	h = &b->h; vg_blk = h;
+	cap0 = vg_cap;
+	__CPROVER_assume(27 <= cap0 && cap0 <= VG_RAW_MAX);      /* a level-1 base header has at least 27 raw bytes */
+	h->raw_data = b->raw; h->raw_data_len = cap0;
+	cl0 = h->compressed_length;
+	__CPROVER_assume(cl0 <= 8);
+	vg_io_fail = 0;
+	r = read_l1_extended_headers(&h, st);
+	__CPROVER_assert(h == vg_blk && h->raw_data == VG_RAW(h) && h->raw_data_len <= vg_cap && vg_cap <= VG_RAW_MAX, "block shape after read_l1_extended_headers");
+	/* independent walk over the chain: each length field is the last two bytes of what precedes it */
+	pos = cap0 - 2;
+	for (k = 0; k < 3; k++) {
+		if (!ended && !rulebad && !ranout) {
+			if (pos + 2 > h->raw_data_len) ranout = 1;
+			else {
+				len = VG_LE16(VG_RAW(h) + pos);
+				if (len == 0) ended = 1;
+				else if (len > cl0 - total || len < 3) rulebad = 1;
+				else { total += len; pos += len; }
+			}
+		}
+	}
+	__CPROVER_assert(!rulebad || r == 0, "C12 level 1: an extended header larger than the remaining compressed length, or shorter than 3 bytes, is rejected");
+	__CPROVER_assert(r == 0 || (ended && !rulebad && !ranout), "C12 level 1: success only for a chain that ends with a zero length inside the bytes read");
+	__CPROVER_assert(r == 0 || (h->compressed_length == cl0 - total && h->raw_data_len == cap0 + total && vg_cap == cap0 + total),
+	                 "C05 level 1: compressed_length is reduced by exactly the extended-header bytes read");
+	__CPROVER_assert(r == 1 || r == 0, "result is 0 or 1");
+	__CPROVER_assert(r == 1 || rulebad || vg_io_fail, "C12 level 1: failure only for a rule violation, a short read or an allocation failure");
+	VG_CANARY("read_l1_plain");
+}
 void h_consts(void)
 {
 	__CPROVER_assert(VG_GROW_MAX == LEVEL_3_MAX_HEADER_LEN, "harness constant equals LEVEL_3_MAX_HEADER_LEN");
